@@ -261,6 +261,31 @@ def k_fresh_words(ctx, raw13, raw16):
     c.seq_flags = sp.SequenceFlags(int(c.seq_flags) ^ 1)
 
 
+def k_composite_siblings(ctx, seed):
+    """Two headers built from the same PacketId / PacketSeqCtrl objects (from_composite_fields): changing one header through
+    its setters changes neither the other header nor the caller's id / sequence-control objects."""
+    import random
+    sp = _imp()
+    r = random.Random(f"sib/{seed}")
+    case = {"k": "composite_siblings", "seed": seed}
+    ctx.case("composite_siblings", seed, sample=case)
+    pid = sp.PacketId(sp.PacketType(r.getrandbits(1)), bool(r.getrandbits(1)), r.getrandbits(11))
+    psc = sp.PacketSeqCtrl(sp.SequenceFlags(r.getrandbits(2)), r.getrandbits(14))
+    w13, w16 = pid.raw(), psc.raw()
+    length, ver = r.getrandbits(16), r.getrandbits(3)
+    a = sp.SpacePacketHeader.from_composite_fields(pid, psc, length, ver)
+    b = sp.SpacePacketHeader.from_composite_fields(pid, psc, length, ver)
+    want = bytes(b.pack())
+    ctx.check("hdr.pack", want == R.encode_header(ver, w13 >> 12, (w13 >> 11) & 1, w13 & 0x7FF, w16 >> 14, w16 & 0x3FFF, length), "octets", "composite", case, observed=want)
+    for name, fn in r.sample([("apid", lambda: setattr(a, "apid", (a.apid + 1) & 0x7FF)), ("seq_count", lambda: setattr(a, "seq_count", (a.seq_count + 1) & 0x3FFF)),
+                              ("seq_flags", lambda: setattr(a, "seq_flags", sp.SequenceFlags((int(a.seq_flags) + 1) & 3))),
+                              ("sec_header_flag", lambda: setattr(a, "sec_header_flag", not a.sec_header_flag)),
+                              ("packet_type", lambda: setattr(a, "packet_type", sp.PacketType(1 - int(a.packet_type))))], 3):
+        fn()
+        ctx.check("hdr.history", bytes(b.pack()) == want and pid.raw() == w13 and psc.raw() == w16, "setter_on_one_header_changed_a_sibling_or_the_callers_objects", name, case,
+                  sibling=bytes(b.pack()), expected=want, caller_words=[pid.raw(), psc.raw()])
+
+
 def k_hdr_history(ctx, seed):
     """One header object that is packed, compared and changed through its documented setters (in-range values) in any order:
     after every step pack() is the encoding of the current field values and decodes back to them."""
@@ -313,7 +338,7 @@ def k_hdr_history(ctx, seed):
             return
 
 
-KINDS = {"fresh_words": k_fresh_words, "hdr_history": k_hdr_history, "pack": k_pack, "unpack": k_unpack, "refuse": k_refuse, "words": k_words, "sp_pack": k_sp_pack}
+KINDS = {"composite_siblings": k_composite_siblings, "fresh_words": k_fresh_words, "hdr_history": k_hdr_history, "pack": k_pack, "unpack": k_unpack, "refuse": k_refuse, "words": k_words, "sp_pack": k_sp_pack}
 
 
 # ---------------------------------------------------------------- workload
@@ -397,6 +422,8 @@ def run(ctx):
             for data in (None, "", "00", "0102030405"):
                 k_sp_pack(ctx, shf, sec if shf or sec is None else None, data, r.getrandbits(11), r.getrandbits(14),
                           r.getrandbits(3))
+    for j in range(ctx.n(400, 40_000)):
+        k_composite_siblings(ctx, ctx.seed * 1_000_003 + ctx.shard[0] * 100_003 + j)
     for j in range(ctx.n(400, 40_000)):
         k_fresh_words(ctx, r.getrandbits(13), r.getrandbits(16))
     # octet strings the code under test itself holds (markers, masks, tables) and well-known link markers, as the start of a header
